@@ -5,3 +5,6 @@ import "os"
 // VerifReadAt replaces (*os.File).ReadAt inside ReadLimiter.ReadAt: the harness serves reads
 // from its in-memory file.
 var VerifReadAt func(f *os.File, buf []byte, offset int64) (int, error)
+
+// vKeep stands for zstd.CompressLevel: blocks are stored uncompressed.
+func vKeep(_ func([]byte, []byte, int) []byte, data []byte) []byte { return data }
